@@ -13,10 +13,18 @@ From SV Require Import Gen.GoInt Gen.DecTypes.
 Import ListNotations.
 Open Scope Z_scope.
 
+Lemma gerr_eqb_spec a b : reflect (a = b) (gerr_eqb a b).
+Proof.
+  destruct (gerr_eqb a b) eqn:E; constructor.
+  - now apply gerr_eqb_eq.
+  - intro H. apply gerr_eqb_eq in H. congruence.
+Qed.
+
 Ltac deceq_unfold_arith :=
   unfold wrap8, wrap16, wrap32, wrap64, uwrap8, uwrap16, uwrap32, uwrap64 in *.
 
-(* split on the leftmost atom of a boolean expression: integer comparisons become linear facts,
+(* split on the leftmost atom of a boolean expression: integer comparisons become linear facts, equality tests
+   on strings / booleans / errors become (dis)equalities (so a mirrored test `b == a` agrees by congruence),
    anything else (a boolean parameter, an opaque call) is destructed, which replaces every occurrence *)
 Ltac deceq_atom c :=
   lazymatch c with
@@ -29,6 +37,9 @@ Ltac deceq_atom c :=
   | Z.leb ?a ?b => destruct (Z.leb_spec a b)
   | Z.gtb ?a ?b => rewrite (Z.gtb_ltb a b)
   | Z.geb ?a ?b => rewrite (Z.geb_leb a b)
+  | String.eqb ?a ?b => destruct (String.eqb_spec a b)
+  | Bool.eqb ?a ?b => destruct (Bool.eqb_spec a b)
+  | gerr_eqb ?a ?b => destruct (gerr_eqb_spec a b)
   | true => fail
   | false => fail
   | _ => destruct c eqn:?
@@ -41,6 +52,9 @@ Ltac deceq_split_step :=
   | |- context [Z.leb ?a ?b] => destruct (Z.leb_spec a b)
   | |- context [Z.gtb ?a ?b] => rewrite (Z.gtb_ltb a b)
   | |- context [Z.geb ?a ?b] => rewrite (Z.geb_leb a b)
+  | |- context [String.eqb ?a ?b] => destruct (String.eqb_spec a b)
+  | |- context [gerr_eqb ?a ?b] => destruct (gerr_eqb_spec a b)
+  | |- context [Bool.eqb ?a ?b] => destruct (Bool.eqb_spec a b)
   | |- context [if ?c then _ else _] => deceq_atom c
   | |- context [match ?x with _ => _ end] => destruct x eqn:?
   | |- context [andb ?x _] => deceq_atom x
